@@ -103,6 +103,19 @@ func (c *Coll) CreateColumn(d ColDesc) error {
 	return nil
 }
 
+// DropColumn removes a data column. Indexes, sorted indexes and triggers computed from it stay registered (and
+// listed here): the library detaches them.
+func (c *Coll) DropColumn(name string) {
+	c.C.DropColumn(name)
+	for i, d := range c.Cols {
+		if d.Name == name {
+			c.Cols = append(c.Cols[:i:i], c.Cols[i+1:]...)
+			break
+		}
+	}
+	c.W.T.Log(Ev{"e": "dropcol", "c": c.Name, "n": name})
+}
+
 // ---- computed columns ------------------------------------------------------------------------
 
 // readerValue decodes what a computed column's Reader carries, by the source column's repr.
